@@ -581,4 +581,81 @@ Section Pending.
       + destruct (expand_validate_pending _ _ _ _ _ _ _) as [d|]; [destruct d|destruct (fallback_value _ _ _ _)]; eexists; reflexivity.
     - destruct (inherited key || is_custom_name key)%bool; eexists; reflexivity.
   Qed.
+
+  (* ---- the element with or without a parent style (cascade_value_at) ---- *)
+
+  Notation cascade_at := (cascade_value_at known validate parse_color other_expander inherited initial_value).
+
+  (* an element that has a parent: the steps of cascade_value *)
+  Theorem cascade_value_at_nonroot fuel e key casc :
+    cascade_at (Some parent_value) fuel e key casc = cascade fuel e key casc.
+  Proof.
+    unfold cascade_value_at, cascade_value, fallback_value.
+    destruct casc as [[v sh]|].
+    - destruct v; try reflexivity.
+      destruct (pending fuel e key sh ts) as [[d|]| |]; cbn [bind]; try reflexivity.
+      + destruct d; reflexivity.
+      + destruct (inherited key); [destruct (parent_value key)|destruct (initial_value key)]; reflexivity.
+    - destruct (inherited key || is_custom_name key)%bool; reflexivity.
+  Qed.
 End Pending.
+
+Section Root.
+  Variable known : str -> bool.
+  Variable validate : str -> list tok -> option value.
+  Variable parse_color : tok -> color.
+  Variable other_expander : str -> option (list tok -> option (list nprop)).
+  Variable inherited : str -> bool.
+  Variable initial_value : str -> value.
+
+  Notation pending := (pending_value known validate parse_color other_expander).
+  Notation cascade_at := (cascade_value_at known validate parse_color other_expander inherited initial_value).
+
+  (* the root element (no parent style): every step that would read the parent reads the
+     initial values instead -- the root "inherits" the initial values, whether `inherit` is
+     declared, is the default of an inherited property, comes out of a var() substitution,
+     or the pending value is invalid at computed-value time.  In particular no `Panic 2`
+     (nil parent dereference). *)
+  Theorem cascade_value_at_root fuel e key casc :
+    cascade_at None fuel e key casc =
+    cascade_value known validate parse_color other_expander inherited initial_value initial_value fuel e key casc.
+  Proof.
+    unfold cascade_value_at, cascade_value, fallback_value.
+    destruct casc as [[v sh]|].
+    - destruct v; try reflexivity.
+      destruct (pending fuel e key sh ts) as [[d|]| |]; cbn [bind]; try reflexivity.
+      + destruct d; reflexivity.
+      + destruct (inherited key); destruct (initial_value key); reflexivity.
+    - destruct (inherited key || is_custom_name key)%bool; reflexivity.
+  Qed.
+
+  (* a pending value that substitutes to `inherit` on the root gives exactly what a declared
+     `inherit` gives there: the initial value *)
+  Theorem root_substituted_inherit_is_initial fuel e key sh raw :
+    pending fuel e key sh raw = Ok (Some VInherit) ->
+    cascade_at None fuel e key (Some (VRaw raw, sh)) = Ok (finalize initial_value initial_value key (initial_value key)) /\
+    cascade_at None fuel e key (Some (VRaw raw, sh)) = cascade_at None fuel e key (Some (VInherit, sh)).
+  Proof.
+    intros H. unfold cascade_value_at. rewrite H. cbn [bind]. unfold finalize.
+    split; destruct (initial_value key); reflexivity.
+  Qed.
+
+  Theorem root_pending_invalid_falls_back fuel e key sh raw :
+    pending fuel e key sh raw = Ok None ->
+    cascade_at None fuel e key (Some (VRaw raw, sh)) = Ok (finalize initial_value initial_value key (initial_value key)).
+  Proof.
+    intros H. rewrite cascade_value_at_root.
+    rewrite (pending_invalid_falls_back known validate parse_color other_expander inherited initial_value initial_value fuel e key sh raw H).
+    destruct (inherited key); reflexivity.
+  Qed.
+
+  (* total for every element, the root included *)
+  Theorem cascade_value_at_total parent e key casc fuel :
+    (forall raw sh t, casc = Some (VRaw raw, sh) -> In t raw -> fuel_bound e t <= fuel) ->
+    exists v, cascade_at parent fuel e key casc = Ok v.
+  Proof.
+    intros H. destruct parent as [pv|].
+    - rewrite cascade_value_at_nonroot. now apply cascade_value_total.
+    - rewrite cascade_value_at_root. now apply cascade_value_total.
+  Qed.
+End Root.
